@@ -43,7 +43,7 @@ var Check = &run.Check{
 		"comments, padded values, properties, dependencyManagement / plugin / profile dependencies, parent, reporting/build javadoc <links><link>, properties and ciManagement configuration with elements named like HTML void elements (link, param, base, meta, input, ...), licenses, scm, entity references, in any order before and after) or build.gradle (odd index; one dependencies closure with 0-15 statements in " +
 		"single-quoted, double-quoted, ${}-interpolated-version, parenthesised and parenthesised-with-closure string notation under 14 configurations, plus project(), fileTree() and map notation in command and " +
 		"parenthesised form; 4-space/tab/2-space indentation, no indentation at all, or closures closed in column one; buildscript/plugins/apply/ext/repositories/configurations/android/test/task/jar blocks around; every script first passes coca's Groovy parser) + 0-6 Java files (class/interface, few " +
-		"enum/annotation types; main and test roots) importing a chosen subset of the declared groups (single-type, on-demand, static, group inside a longer package) plus near-miss and unrelated imports; " +
+		"enum/annotation types; main and test roots) importing a chosen subset of the declared groups (single-type, on-demand, static, group inside a longer package) plus near-miss and unrelated imports; file heads with one declaration per line, imports sharing a line, an import on the package line, or package and imports on one line; import-looking lines inside comments; " +
 		"observed: deps.AnalysisMaven / deps.AnalysisGradleString, deps.DepAnalysisApp.AnalysisPath (nodes built as the dep main builds them), and for every Nth case the table printed by `coca-dep deps -p .`; " +
 		"non-trivial = >= 3 declared string-notation entries, at least one imported and one not imported, and >= 2 notations (gradle) / an entry with optional children (pom); distinct = hash of " +
 		"(system, section layout, per-entry notation and child order, import mode, kinds and import counts of the Java files)",
@@ -271,10 +271,57 @@ func runCase(c *run.Ctx, o *run.Outcome) {
 		}
 	}
 	o.Count("java_files", len(p.Java))
+	firstOnLine := map[string]bool{} // imports that start some line somewhere
 	for _, f := range p.Java {
 		o.Count("java_files_"+f.Kind, 1)
 		o.Count("imports_written", len(f.Imports))
+		o.Count("java_head_layout_"+f.Layout, 1)
+		o.Count("imports_not_first_on_their_line", len(f.NotFirstOnLine))
+		o.Count("import_looking_lines_in_comments", len(f.CommentedImports))
+		nf := map[string]bool{}
+		for _, im := range f.NotFirstOnLine {
+			nf[im] = true
+		}
+		for _, im := range f.Imports {
+			if !nf[im] {
+				firstOnLine[im] = true
+			}
+		}
 	}
+	// ground-truth dimensions of the Java head layout: declared entries whose group occurs only in imports that follow
+	// another declaration on their line, and not-imported entries whose group occurs in a comment
+	importedOnlyMidLine, unusedButInComment := 0, 0
+	for _, b := range p.Builds() {
+		for _, e := range b.Entries {
+			if e.Kind != buildgen.KindString {
+				continue
+			}
+			used, usedFirst, inComment := false, false, false
+			for _, f := range p.Java {
+				for _, im := range f.Imports {
+					if strings.Contains(im, e.Group) {
+						used = true
+						if firstOnLine[im] {
+							usedFirst = true
+						}
+					}
+				}
+				for _, ci := range f.CommentedImports {
+					if strings.Contains(ci, e.Group) {
+						inComment = true
+					}
+				}
+			}
+			if used && !usedFirst {
+				importedOnlyMidLine++
+			}
+			if !used && inComment {
+				unusedButInComment++
+			}
+		}
+	}
+	o.Count("entries_imported_only_by_imports_not_first_on_their_line", importedOnlyMidLine)
+	o.Count("entries_not_imported_but_named_in_a_comment", unusedButInComment)
 	o.Seen("import_modes", p.Mode)
 	o.NonTrivial = nDeclared >= 3 && len(expUnused) >= 1 && len(expUnused) < nDeclared &&
 		((system == "gradle" && len(styles) >= 2) || (system == "maven" && optionalChildren))
@@ -389,6 +436,8 @@ func runCase(c *run.Ctx, o *run.Outcome) {
 		// the analysed directory is named in one of the legal ways (absolute, relative, ".", "..", trailing slash, ...)
 		cwd, arg, kind := common.SpellRoot(c.Index/cliEvery(c.Tier), dir, scratch)
 		o.Count("cli_root_spelled_"+kind, 1)
+		o.Count("cli_entries_imported_only_by_imports_not_first_on_their_line", importedOnlyMidLine)
+		o.Count("cli_entries_not_imported_but_named_in_a_comment", unusedButInComment)
 		witness["cli_cwd"], witness["cli_arg"], witness["cli_root_kind"] = cwd, arg, kind
 		res := common.RunCLI(depBin, cwd, nil, "deps", "-p", arg)
 		witness["cli_stdout"] = res.Stdout
